@@ -30,8 +30,27 @@ KEYS = ["a", "b", "c", "d", "e"]
 MODE = {"bp": "by_position", "comb": "combinatorial"}
 
 
-def val(k: str, i: int) -> int:
-    return 10 * (KEYS.index(k) + 1) + i
+# value skins: expansion never looks INTO a value, so one case in six is replayed with every value token v replaced by an
+# unusual-but-valid concrete value that every source format must hand back exactly (CSV cells go through the documented
+# coercion: an integer literal is an int of any size, a literal with "." a float, anything else -- "11e3", "s11" -- text)
+SKINS = [("big-int", lambda v: 2 ** 53 + 1 + 2 * v), ("negative", lambda v: -v), ("fraction", lambda v: v + 0.5),
+         ("text", lambda v: f"s{v}"), ("exponent-text", lambda v: f"{v}e3"), ("int64", lambda v: 2 ** 63 - v)]
+_skin = None
+# key-name skin: column names that YAML does not read as text (a bare 2019 is an int) are column names all the same:
+# the documented rule is str(name), so select / rename / duplicate detection and the runs talk about "2019"
+_keyskin = False
+
+
+def kn(k: str) -> str:
+    return str(2019 + KEYS.index(k)) if (_keyskin and k in KEYS) else k
+
+
+def sv(v: int):
+    return v if _skin is None else _skin[1](v)
+
+
+def val(k: str, i: int):
+    return sv(10 * (KEYS.index(k) + 1) + i)
 
 
 def _fn(x) -> Dict[str, Any]:
@@ -40,7 +59,8 @@ def _fn(x) -> Dict[str, Any]:
 
 def write_source(cols: Dict[str, int], path_base: Path, h: int) -> Tuple[str, str]:
     """Write the source columns in a format chosen by hash among the feasible ones."""
-    data = {k: [val(k, i) for i in range(1, n + 1)] for k, n in cols.items()}
+    data = {kn(k): [val(k, i) for i in range(1, n + 1)] for k, n in cols.items()}
+    cols = {kn(k): n for k, n in cols.items()}
     lens = set(cols.values())
     formats = ["json-map", "yaml-map"]
     if len(lens) == 1:
@@ -65,14 +85,14 @@ def write_source(cols: Dict[str, int], path_base: Path, h: int) -> Tuple[str, st
         return "json", p.name
     if f == "yaml-rows":
         p = path_base.with_suffix(".yaml")
-        p.write_text(yaml.safe_dump(rows))
+        p.write_text(yaml.safe_dump([{(int(k) if _keyskin else k): v for k, v in r.items()} for r in rows]))
         return "yaml", p.name
     if f == "json-map":
         p = path_base.with_suffix(".json")
         p.write_text(json.dumps(data))
         return "json", p.name
     p = path_base.with_suffix(".yaml")
-    p.write_text(yaml.safe_dump(data))
+    p.write_text(yaml.safe_dump({(int(k) if _keyskin else k): v for k, v in data.items()}))
     return "yaml", p.name
 
 
@@ -83,7 +103,7 @@ def g_run_space(spec: Dict[str, Any], tmp: Path, h: int) -> Dict[str, Any]:
         blk: Dict[str, Any] = {"mode": MODE[b["mode"]]}
         ctx = _fn(b["ctx"])
         if ctx or h % 3:
-            blk["context"] = {k: [val(k, i) for i in range(1, n + 1)] for k, n in ctx.items()}
+            blk["context"] = {kn(k): [val(k, i) for i in range(1, n + 1)] for k, n in ctx.items()}
         s = b["src"]
         if s["mode"] != "none":
             ck = tuple(sorted(_fn(s["cols"]).items()))
@@ -94,9 +114,9 @@ def g_run_space(spec: Dict[str, Any], tmp: Path, h: int) -> Dict[str, Any]:
             if s["mode"] == "bp" and (h + bi) % 2:
                 del src["mode"]          # the documented default of a source is by_position (rows are runs)
             if s["select"] != ["*"]:
-                src["select"] = sorted(s["select"])
+                src["select"] = sorted(kn(k) for k in s["select"])
             if _fn(s["rename"]):
-                src["rename"] = _fn(s["rename"])
+                src["rename"] = {kn(a): kn(b) for a, b in _fn(s["rename"]).items()}
             blk["source"] = src
         blocks.append(blk)
     rs = {"combine": MODE[spec["combine"]], "max_runs": spec["maxRuns"], "blocks": blocks}
@@ -115,6 +135,11 @@ def real_expand(rs: Dict[str, Any], tmp: Path) -> Tuple[str, Any]:
     try:
         cfg = parse_pipeline_config({"pipeline": {"nodes": []}, "run_space": rs}, base_dir=tmp)
         runs, meta = expand_run_space(cfg.run_space, cwd=tmp)
+        # the specification object is the caller's: expanding it again (a retry after raising the cap, a dry run followed
+        # by the launch) must give the same plan
+        runs2, meta2 = expand_run_space(cfg.run_space, cwd=tmp)
+        if runs2 != runs or meta2 != meta:
+            return "second-expansion-differs", (runs, runs2)
         return "runs", (runs, meta)
     except RunSpaceMaxRunsExceededError as exc:
         return "max_runs", (exc.actual_runs, exc.max_runs)
@@ -133,6 +158,11 @@ def replay_chunk(cases: List[Dict[str, Any]]):
             h = zlib.crc32(json.dumps(spec, sort_keys=True).encode())
             for f in tmp.iterdir():
                 f.unlink()
+            global _skin
+            _skin = SKINS[(h // 6) % len(SKINS)] if h % 6 == 1 else None
+            global _keyskin
+            _keyskin = h % 5 == 2
+            out["skinned"] = out.get("skinned", 0) + (_skin is not None)
             rs = g_run_space(spec, tmp, h)
             kind, payload = real_expand(rs, tmp)
             out["n"] += 1
@@ -141,15 +171,20 @@ def replay_chunk(cases: List[Dict[str, Any]]):
             out["with_source"] += any(b["src"]["mode"] != "none" for b in spec["blocks"])
             shape = f"{len(spec['blocks'])}blk:{spec['combine']}:" + "+".join(b["mode"] + ("/src-" + b["src"]["mode"] if b["src"]["mode"] != "none" else "") for b in spec["blocks"])
             if exp == "runs":
-                want = [_fn(r) for r in case["runs"]]
+                want = [{kn(k): sv(v) for k, v in _fn(r).items()} for r in case["runs"]]
+                if kind == "second-expansion-differs":
+                    out["viol"].append((f"second-expansion-differs:{shape}", f"run_space={rs}: expanding the same specification object twice gives {payload[0][:4]} and then {payload[1][:4]}", {"case": case, "run_space": rs}))
+                    continue
                 if kind != "runs":
                     out["viol"].append((f"rejected-valid:{shape}", f"spec: {len(want)} runs {want[:3]}...; code rejected with {kind}: {payload}; run_space={rs}", {"case": case, "run_space": rs}))
                     continue
                 runs, meta = payload
                 if runs != want:
                     what = "order" if sorted(map(_k, runs)) == sorted(map(_k, want)) else "content"
+                    if _skin is not None:
+                        what += f":{_skin[0]}-values"
                     out["viol"].append((f"runs-{what}:{shape}", f"run_space={rs}: expected {want[:6]} got {runs[:6]} (len {len(want)} vs {len(runs)})", {"case": case, "run_space": rs}))
-                elif any(set(r) != set(case["keys"]) for r in runs):
+                elif any(set(r) != {kn(k) for k in case["keys"]} for r in runs):
                     out["viol"].append((f"union-keys:{shape}", f"a run does not carry the union of keys {case['keys']}: {runs[:3]}", {"case": case, "run_space": rs}))
                 elif meta.get("expanded_runs") != len(want):
                     out["viol"].append((f"meta-count:{shape}", f"meta.expanded_runs={meta.get('expanded_runs')} but {len(want)} runs", {"case": case, "run_space": rs}))
@@ -289,6 +324,7 @@ def _replay(run: core.Run, cfg: str, **kw):
         for r in pmap(replay_chunk, tlc.iter_emitted(path), chunk=500):
             n += r["n"]
             run.extra["with_source"] = run.extra.get("with_source", 0) + r["with_source"]
+            run.extra["cases_with_unusual_values"] = run.extra.get("cases_with_unusual_values", 0) + r.get("skinned", 0)
             bo = run.extra.setdefault("cases_by_outcome", {})
             for k, v in r["by_outcome"].items():
                 bo[k] = bo.get(k, 0) + v
